@@ -22,7 +22,7 @@ META = {
                     "C02 contract on bin1d_vec stays installed underneath"],
     "deciding": ["lookup:get_masked", "lookup:get_index_of", "agree:filter_spatial", "agree:spatial_counts", "invariant:region"],
 }
-META["added"] = 'Added while building / after seeding rounds: union-of-readings model for midpoint-derived origins; odd spacings (0.04, 0.07, 0.125, 0.15, 0.0125, 0.6, 2, 0.03) and anchors; structured degenerate shapes (single row / column with unequal anchors); model-decided batch lookups; catalogs already bound to another region before filter_spatial; masked_region; get_bbox. batch-composition independence of get_masked.'
+META["added"] = 'Added while building / after seeding rounds: 2-d shaped batches for get_masked; union-of-readings model for midpoint-derived origins; odd spacings (0.04, 0.07, 0.125, 0.15, 0.0125, 0.6, 2, 0.03) and anchors; structured degenerate shapes (single row / column with unequal anchors); model-decided batch lookups; catalogs already bound to another region before filter_spatial; masked_region; get_bbox. batch-composition independence of get_masked.'
 MANIFEST = {
     "technique": "invariant on live CartesianGrid2D objects after construction + boundary recorder on seven lookup entry points compared with an exact-comparison lattice reference model; cross-entry agreement checks; bin1d_vec contract active underneath",
     "level_text": "For each generated or shipped region the object invariant (mask/index-map bijection, edge arrays) is evaluated once and ~3000 boundary-adjacent probe points are pushed through masking, index lookup (batch and point by point), spatial filtering and per-cell counting; every answer is compared with the unique cell found by exact comparison against the lattice edges (either neighbour accepted only inside the documented band), and the entry points must agree with each other.",
@@ -209,6 +209,18 @@ def check_region(ctx, reg, model, rc, tags, rng, origins=None, n_single=150):
             ctx.violate("get_masked answers differently for the same points when asked in another batch", rc,
                         observed=repr(m_b)[:120] if not ok_b else {"points": numpy.column_stack([lon[box][d], lat[box][d]]), "masked_in_sub_batch": numpy.asarray(m_b)[d]},
                         expected={"masked_in_full_batch": masked[box][d] if ok_b else None}, tags=dict(tags, api="get_masked", clause="batch-dependence"))
+    # --- the same points handed over as 2-d arrays (a meshgrid over the map, or the (1, n) packing numpy.split gives): same verdict per point
+    for shape2 in ((2, lon.size // 2), (1, lon.size)):
+        m2 = shape2[0] * shape2[1]
+        if shape2[1] < 2:
+            continue
+        ok_2, m_2, tb_2 = ctx.call(reg.get_masked, lon[:m2].reshape(shape2), lat[:m2].reshape(shape2))
+        ctx.mon("lookup:get_masked", 1)
+        if not ok_2 or numpy.asarray(m_2).size != m2 or not numpy.array_equal(numpy.asarray(m_2, dtype=bool).ravel(), masked[:m2]):
+            d = numpy.nonzero(numpy.asarray(m_2, dtype=bool).ravel() != masked[:m2])[0][:5] if ok_2 and numpy.asarray(m_2).size == m2 else []
+            ctx.violate("get_masked answers differently for the same points when asked in another batch", rc,
+                        observed=repr(m_2)[:120] if not len(d) else {"points": numpy.column_stack([lon[:m2][d], lat[:m2][d]]), "masked_in_2d_batch": numpy.asarray(m_2).ravel()[d]},
+                        expected={"masked_in_full_batch": masked[:m2][d] if len(d) else None}, tags=dict(tags, api="get_masked", clause="batch-dependence", form="2-d %r" % (shape2[0],)))
     # --- get_index_of, batch on points the library calls inside
     ins = numpy.nonzero(~masked)[0]
     idx_obs = -numpy.ones(lon.size, dtype=int)
